@@ -2163,11 +2163,8 @@ func (te *TemplateEngine) processDocumentLevelLoops(doc *Document, data *Templat
 										content = regexp.MustCompile(`\{\{#each\s+\w+\}\}`).ReplaceAllString(content, "")
 										content = regexp.MustCompile(`\{\{/each\}\}`).ReplaceAllString(content, "")
 
-										// 替换变量
-										for key, value := range itemMap {
-											placeholder := fmt.Sprintf("{{%s}}", key)
-											content = strings.ReplaceAll(content, placeholder, te.interfaceToString(value))
-										}
+										// 替换变量：只扫描一遍（值里出现的另一个字段的占位符仍然是值，结果不依赖 map 的遍历顺序）
+										content = te.replaceItemFields(content, itemMap)
 
 										// 如果内容不为空，创建新段落
 										if strings.TrimSpace(content) != "" {
@@ -2376,12 +2373,8 @@ func (te *TemplateEngine) processNonTableLoops(content string, data *TemplateDat
 			if listData, exists := data.Lists[listVar]; exists {
 				for _, item := range listData {
 					if itemMap, ok := item.(map[string]interface{}); ok {
-						loopContent := blockContent
-						for key, value := range itemMap {
-							placeholder := fmt.Sprintf("{{%s}}", key)
-							loopContent = strings.ReplaceAll(loopContent, placeholder, te.interfaceToString(value))
-						}
-						result.WriteString(loopContent)
+						// 只扫描一遍，见 replaceItemFields
+						result.WriteString(te.replaceItemFields(blockContent, itemMap))
 					}
 				}
 			}
